@@ -186,6 +186,14 @@ Definition wr_step (w : writer) (fs : fsys) : writer * fsys :=
   | WFinished => (w, fs)
   end.
 
+(* The order of the calls of TrieBuilder::build that wr_step implements, in the
+   codes of Gen/Durability_gen.v (regenerated from the source on every run):
+   0 File::create(tmp) [WStart -> WWrote 0], 1 self.write + 2 writer.flush [the chunks
+   reach the OS: WWrote 0 -> WWrote n_chunks], 3 sync_data [-> WSynced],
+   4 fs::rename(tmp, path) [-> WRenamed].  Properties/C10.v proves the source's order
+   equals this one. *)
+Definition writer_program : list N := [0; 1; 2; 3; 4].
+
 (* ------------------------------------------------------------------ *)
 (* the whole system *)
 
